@@ -62,7 +62,7 @@ Inductive event := EvRes (id : Z) (r : res) | EvRedef (id : Z).
 Record genv := GEnv {
   ge_regs : list (lang * ident);                          (* register aliases *)
   ge_ins : list (lang * ident * Z);                       (* instruction aliases: language, name, opcode *)
-  ge_sigs : list (lang * Z * list (option ident));        (* (language, opcode) -> enum colour of every parameter *)
+  ge_sigs : list (lang * Z * list (option ident * bool)); (* (language, opcode) -> for every parameter: enum colour, has a default (padding) *)
   ge_builtins : list ident;
   ge_enums : list (ident * list ident)                    (* every declared enum with its const names *)
 }.
@@ -71,3 +71,6 @@ Record genv := GEnv {
 Inductive ribtag := TLocals | TParams | TLocalBarrier | TItems | TMapfile | TEnumConsts | TBuiltinConsts | TDummyRoot.
 Inductive gribtag := GInsAliases | GRegAliases | GBuiltinConsts | GEnumConsts.
 Inductive nstag := TVars | TFuncs.
+
+(* which call arguments that were not matched with a parameter are still visited (generated) *)
+Inductive excess_mode := ExNone | ExAfterParams | ExAfterMatched.
